@@ -39,10 +39,13 @@ def make_spans(layout: list[tuple[str, str, list[int | None], list[str]]]) -> li
     """layout: [(trace id, workflow name, parent index per span, span name per span)]"""
     out = []
     t = 0
-    for tid, wf, parents, names in layout:
+    for entry in layout:
+        tid, wf, parents, names = entry[:4]
+        slot = entry[4] if len(entry) > 4 else list(range(len(parents)))     # which time slot each span takes (sibling order in time)
         for i, (p, nm) in enumerate(zip(parents, names)):
-            out.append({"job_name": wf, "job_id": tid, "event_type": nm, "event_id": f"{tid}.{i}", "start_timestamp": T0 + (t + i) * 10**9,
-                        "end_timestamp": T0 + (t + i + 1 + (3 if p is None else 0)) * 10**9, "application_name": "app " if i % 2 else "app",
+            k = 0 if p is None else slot[i]
+            out.append({"job_name": wf, "job_id": tid, "event_type": nm, "event_id": f"{tid}.{i}", "start_timestamp": T0 + (t + k) * 10**9,
+                        "end_timestamp": T0 + (t + k + 1 + (len(parents) + 3 if p is None else 0)) * 10**9, "application_name": "app " if i % 2 else "app",
                         "parent_event_id": None if p is None else f"{tid}.{p}"})
         t += 10
     return out
@@ -159,6 +162,14 @@ def run_case(case: dict[str, Any]) -> dict[str, Any]:
 def domain(tier: str, rng: random.Random) -> Any:
     shapes = [[None], [None, 0], [None, 0, 1], [None, 0, 0], [None, 0, 0, 1]]
     n = 24 if tier == "quick" else 200
+    # two traces of one call-tree shape whose siblings come in a different order in time: equal shape hash, different PV sequences
+    for names in (["open", "poll", "close\t"], ["handle request", "läuft", "x.y", "ok"]):
+        shape = [None] + [0] * (len(names) - 1)
+        twins = [["t0", "wf one", shape, names, list(range(len(names)))], ["t0x", "wf one", shape, names, [0] + list(range(1, len(names)))[::-1]],
+                 ["t1", "wf2", [None, 0], ["ok", "a_b"]]]
+        for custom in (False, True):
+            for asy in (False, True):
+                yield {"layout": twins, "custom": custom, "async": asy}
     for k in range(n):
         layout = []
         for ti in range(rng.randrange(2, 5)):
@@ -166,6 +177,13 @@ def domain(tier: str, rng: random.Random) -> Any:
             wf = rng.choice(["wf one", "wf2", "Users Service"])
             pool = NAMES if k % 2 else [x for x in NAMES if x == x.strip()]
             layout.append([f"t{ti}", wf, sh, [rng.choice(pool) for _ in sh]])
+        if k % 4 == 1:
+            # the same call tree twice under one workflow, its siblings in a different order in time (equal shape, different sequence)
+            base = layout[0]
+            if len(base[2]) >= 3:
+                slots = list(range(len(base[2])))
+                twin = [base[0] + "x", base[1], base[2], base[3], [0] + slots[1:][::-1]]
+                layout = layout + [twin]
         for custom in (False, True) + (("chained",) if k % 2 == 0 else ()):
             yield {"layout": layout, "custom": custom, "async": bool(k % 3 == 0)}
 
